@@ -119,12 +119,12 @@ pub fn normalize(raw: &Case, opts: &NormOpts) -> Case {
         cfg.pool = pool_now;
         let cfg = cfg;
         for act in ph.root.iter_mut() {
-            if let RootAct::OpenGate { g } = act {
+            if let RootAct::OpenGate { g } | RootAct::Rewake { g } = act {
                 *g = if cfg.gates > 0 { sc(*g, cfg.gates as usize) } else { 0 };
             }
         }
         if cfg.gates == 0 {
-            ph.root.retain(|a| !matches!(a, RootAct::OpenGate { .. }));
+            ph.root.retain(|a| !matches!(a, RootAct::OpenGate { .. } | RootAct::Rewake { .. }));
         }
         for wk in ph.wakers.iter_mut() {
             for op in wk.iter_mut() {
